@@ -8,14 +8,23 @@ package node
 @*/
 /*@ immutable types/node.subscription.parent types/node.subscription.outch types/node.subscription.cache
   types/node.cache.parent types/node.controller.parent types/node.controller.cache types/node.filterController.filterParent
-  types/node.filterSubscription.filterParent
+  types/node.filterSubscription.filterParent types/node.filterController.controller
 @*/
 /*@ nonblocking-send types/node.subscription.outch
 @*/
 
 /*@ theory nodetyped
 ;; theory lists wiring
-;; uses types/node.event
+;; uses types/node.event types/node.controller
+(declare-fun |F!types/node.filterController!controller| (V) |S!types/node.controller|)
+(assert (forall ((c V)) (! (=> (= (dyntype c) |ty!*types/node.filterController|)
+                               (not (= (|types/node.controller.parent| (|F!types/node.filterController!controller| c)) vnil)))
+                          :pattern ((|F!types/node.filterController!controller| c)))))
+(declare-fun |F!types/node.controller!parent| (V) V)
+; object invariant of the typed controllers (they are only built by newController / newFilterController,
+; whose precondition is a non-nil parent; the field is immutable)
+(assert (forall ((c V)) (! (=> (or (= (dyntype c) |ty!*types/node.controller|) (= (dyntype c) |ty!*types/node.filterController|))
+                               (not (= (|F!types/node.controller!parent| c) vnil))) :pattern ((|F!types/node.controller!parent| c)))))
 (define-fun isT ((o V)) Bool (and (not (= o vnil)) (= (dyntype o) |ty!*core/v1.Node|)))
 (declare-fun tevt-type (V) Str)
 (declare-fun tevt-res (V) V)
@@ -239,6 +248,23 @@ package node
   at call(Refilter) assert [refilters-the-untyped-subscription-with-the-given-filter] (and (= $recv {s.filterParent}) (= $0 {f}))
 @*/
 
+/*@ func types/node.NewMonitor
+  props C20 C16
+  theory nodetyped
+  allow panic
+  note NewMonitor panics for a Publisher that is not one of this package's controllers (documented in the code)
+  requires (and (not (= {publisher} vnil)) (not (= {handler} vnil)))
+  at call(OnInitialize) assert [initialize-adapter] (= (closureOf $0) "types/node.NewMonitor$1")
+  at call(OnCreate) assert [create-adapter-calls-oncreate] (= (closureOf $0) "types/node.NewMonitor$2")
+  at call(OnUpdate) assert [update-adapter-calls-onupdate] (= (closureOf $0) "types/node.NewMonitor$3")
+  at call(OnDelete) assert [delete-adapter-calls-ondelete] (= (closureOf $0) "types/node.NewMonitor$4")
+  ensures (=> (= result1 vnil) (not (= result0 vnil)))
+@*/
+/*@ func types/node.BuildHandler
+  props C20
+  fresh result
+  ensures (not (= result vnil))
+@*/
 /*@ func types/node.NewMonitor$1
   props C20 C16
   theory nodetyped
